@@ -33,7 +33,7 @@ ASSUMPTIONS = ['guarded hook AJQUINN_EMD_MIRROR_VERIF=1 reports the arguments ea
 REQUIRED_CLASSES = ['stage-calls-seen:get_next_imf', 'stage-calls-seen:interp_envelope', 'stage-calls-seen:get_padded_extrema']
 EXPECTED_LABELS = ['never-raises', 'imf-options-reach-get_next_imf', 'envelope-options-reach-interp_envelope',
                    'extrema-options-reach-get_padded_extrema']
-BUDGET_S = {'quick': 170, 'thorough': 900}
+BUDGET_S = {'quick': 170, 'thorough': 1200}
 OPTS = {'quick': {'sample_every': 23, 'concolic': False}, 'thorough': {'sample_every': 53, 'concolic': False}}
 
 VARIANTS = ['sift', 'mask_sift', 'mask_sift_zc', 'ensemble_sift', 'complete_ensemble_sift', 'sift_second_layer', 'mask_sift_second_layer']
